@@ -4,16 +4,24 @@ import importlib
 from runner import Ob
 
 _cache = {}
+_running = set()
 
 
 def inherited(ctx, crate, rule, fn, what, module, keep, example=None):
     """one obligation `rule` that holds iff all obligations of rules.<module> selected by keep(ob) hold"""
     key = (id(crate), module)
+    if key in _running:
+        # two properties that lean on each other (C03's "no eligible file is dropped" on C16's filter, C16's "at every depth" on C03's recursion): while
+        # the other side is being evaluated for this one, its own obligations are what this run is about to report itself
+        return Ob(rule, fn, what, True, expected="(mutual dependency: decided by %s's own obligations in this run)" % module, found="deferred", nontrivial=False)
     if key not in _cache:
+        _running.add(key)
         try:
             _cache[key] = importlib.import_module("rules." + module).run(ctx, crate)
         except Exception as e:  # fail closed
             _cache[key] = [Ob(module + ".engine", module, "engine failure: %s" % e, False)]
+        finally:
+            _running.discard(key)
     sel = [o for o in _cache[key] if keep(o)]
     bad = [o for o in sel if not o.ok]
     return Ob(rule, fn, what, bool(sel) and not bad, expected="%d inherited obligation(s) of %s hold" % (len(sel), module),
